@@ -50,6 +50,10 @@ class Problem(object):
         """bound of |d4y/dt4| / |y| along trajectories (for the O(h^4) interpolation bound)."""
         return self.lipschitz(k) ** 4
 
+    def sensitivity(self, tj, tN, yj, k=1.0):
+        """norm of d y(tN) / d y(tj) along the exact flow through (tj, yj): how a local error made at tj shows up at tN."""
+        return math.exp(self.lipschitz(k) * abs(tN - tj))
+
     def amplification(self, t0, t1, k=1.0):
         """sup of the sensitivity of y(t1) to a perturbation introduced at any s between t0 and t1."""
         return math.exp(self.lipschitz(k) * abs(t1 - t0))
@@ -87,6 +91,10 @@ class Linear(Problem):
         from scipy.linalg import expm
         T = t1 - t0
         return max(float(np.linalg.norm(expm(k * self.A64 * (T * j / 16.0)), 2)) for j in range(17))
+
+    def sensitivity(self, tj, tN, yj, k=1.0):
+        from scipy.linalg import expm
+        return float(np.linalg.norm(expm(k * self.A64 * (float(tN) - float(tj))), 2))
 
 
 class Oscillators(Problem):
@@ -139,6 +147,9 @@ class Oscillators(Problem):
         return abs(k) * float(np.max(np.abs(self.w64)))
 
     def amplification(self, t0, t1, k=1.0):
+        return 1.0
+
+    def sensitivity(self, tj, tN, yj, k=1.0):
         return 1.0
 
 
@@ -206,6 +217,13 @@ class Logistic(Problem):
     def deriv4_scale(self, k=1.0):
         return 24.0 * (abs(k) * float(np.max(np.abs(self.r64)))) ** 4 + 1e-12
 
+    def sensitivity(self, tj, tN, yj, k=1.0):
+        yj = np.asarray(yj, dtype=np.float64)
+        tau = float(tN) - float(tj)
+        e = np.exp(-k * self.r64 * tau)
+        yN = 1.0 / (1.0 + (1.0 / yj - 1.0) * e)
+        return float(np.max(np.abs(yN ** 2 * e / yj ** 2)))
+
 
 class CosDecay(Problem):
     """elementwise y' = k a cos(w t + p) y : time dependent, closed form."""
@@ -245,6 +263,10 @@ class CosDecay(Problem):
 
     def deriv4_scale(self, k=1.0):
         return (abs(k) * float(np.max(np.abs(self.a64))) + abs(self.w64)) ** 4
+
+    def sensitivity(self, tj, tN, yj, k=1.0):
+        d = math.sin(self.w64 * float(tN) + self.p64) - math.sin(self.w64 * float(tj) + self.p64)
+        return float(np.max(np.exp(k * self.a64 / self.w64 * d)))
 
 
 class SmoothNet(Problem):
